@@ -41,6 +41,9 @@ def seg_alphabet():
         ("split-len16+tail", [R.encode(R.BINARY, bytes(200))[:3], R.encode(R.BINARY, bytes(200))[3:] + R.encode(R.TEXT, b"after")]),
         # a frame larger than one transport read followed by another frame in the same segment
         ("big+tail", [R.encode(R.BINARY, bytes(range(256)) * 80) + R.encode(R.TEXT, b"t")]),
+        # fragmented messages whose FIRST fragment is empty (the frame that carries the message opcode), text and binary
+        ("frag-empty-first", [R.encode(R.TEXT, b"", fin=0) + R.encode(R.CONT, "h\u00e9".encode(), fin=0) + R.encode(R.CONT, b"", fin=1),
+                              R.encode(R.BINARY, b"", fin=0) + R.encode(R.CONT, b"\x01\x02", fin=1)]),
         # a text message cut inside multi-byte characters at both fragment boundaries (with a ping in between)
         ("frag-split-char", [R.encode(R.TEXT, b"w\xc3", fin=0) + R.encode(R.CONT, b"\xb6r\xe2\x82", fin=0), R.encode(R.PING, b"m") + R.encode(R.CONT, b"\xacd", fin=1)]),
     ]
@@ -52,7 +55,7 @@ CORE = 12  # histories of the full depth are built from the first CORE kinds; ki
 
 def bounds(tier):
     if tier == "quick":
-        return "histories of <= 3 segments over 13 segment kinds x glued/not x plain/TLS x 9 callback subsets x 6 raising options; reconnected connection"
+        return "histories of <= 3 segments over 14 segment kinds x glued/not x plain/TLS x 9 callback subsets x 6 raising options; reconnected connection"
     return "histories of <= 4 segments x 9 callback subsets; histories of <= 2 segments x all 128 callback subsets; x glued x plain/TLS x 6 raising options"
 
 
